@@ -286,3 +286,25 @@ Proof.
   intros hash v c cond p g aw ar s Hor Hres Hok Hwf Hwp Hsame Hr Hev.
   rewrite (route_in_alive_ext hash c g aw ar p Hsame) in Hr. eapply target_group_sound; eauto.
 Qed.
+
+(* ------------------------------------------------------------------ hard-write: lookup in the writers' list, then keep the alive *)
+Lemma is_alive_in : forall g s, In s (all_alive g) -> is_alive_b g s = true.
+Proof. intros g s H. unfold is_alive_b. apply existsb_exists. exists s. split; auto. apply N.eqb_refl. Qed.
+
+(* a row written under hard-write (hash over every shard of the group) whose shard is alive when the query runs is found,
+   whatever happened to the OTHER partitions between the write and the query *)
+Theorem hard_write_prune_sound_proof : forall hash v c cond p g s,
+  v_or v = true -> v_reset v = true ->
+  (v_and v = true \/ match cond with Some e => parser_image e | None => True end) ->
+  wf_group c (set_alive g (full_list g)) -> wf_point p ->
+  route_in hash c (set_alive g (full_list g)) p = Some s -> In s (all_alive g) -> eval_cond c cond p = true ->
+  In s (target_group_hw hash v c g cond).
+Proof.
+  intros hash v c cond p g s Hor Hres Hok Hwf Hwp Hr Hal Hev.
+  unfold target_group_hw. apply filter_In. split; [|apply is_alive_in; exact Hal].
+  eapply target_group_sound; eauto.
+Qed.
+
+(* and only alive shards are consulted *)
+Lemma target_group_hw_alive : forall hash v c g cond s, In s (target_group_hw hash v c g cond) -> is_alive_b g s = true.
+Proof. intros hash v c g cond s H. unfold target_group_hw in H. apply filter_In in H as [_ H]. exact H. Qed.
